@@ -23,7 +23,7 @@
 from casadi import Opti, jacobian, dot, hessian, symvar, evalf, veccat, DM, vertcat, is_equal
 import casadi
 import numpy as np
-from .casadi_helpers import get_meta, merge_meta, single_stacktrace, MX
+from .casadi_helpers import get_meta, merge_meta, single_stacktrace, MX, is_numeric
 from .solution import OcpSolution
 from .freetime import FreeTime
 
@@ -140,6 +140,9 @@ class DirectMethod:
             target = self.eval_top(stage, var)
             value = DM(opti.debug.value(self.eval_top(stage, expr), opti_initial)) # HOT line
             opti.set_initial(target, value, cache_advanced=True)
+
+    def initial_depends_on_parameters(self, initial):
+        return any(not is_numeric(e) for e in initial.values())
 
     def set_parameter(self, stage, opti):
         for i, p in enumerate(stage.parameters['']):
